@@ -22,6 +22,7 @@ EXPLANATION = (
     " (R11) AnnotationInfo reduces a union annotation to its first member only under a test of `optional`; (R12) typing.*.pydantic_validate returns the object that schema.validate returned, not the raw input. " 
     "NOT decided: "
     "argument binding over all signature shapes (inspect.signature semantics), from_format/to_format conversions."
+    ' (R13) the positional list handed to the wrapped function is never rebuilt from the `.values()` of a BoundArguments.arguments mapping (a *args parameter is one entry of it); R2 follows a store into such a mapping through the object it is a view of.'
 )
 LEVEL_RULE = "one obligation per validate call site / obj_getter branch / wrapper / forwarding call in decorators.py"
 FLOORS = {"R1": 7, "R2": 3, "R3": 4, "R4": 2, "R5": 5, "R6": 2, "R7": 2, "R8": 1, "R9": 1, "R10": 2, "R11": 1, "R12": 1}
@@ -279,11 +280,45 @@ def r12_pydantic_validate_returns_validated(ctx):
         raise AnalysisError("typing: pydantic_validate with a schema.validate call not found")
 
 
+def r13_positionals_not_rebuilt_from_arguments_mapping(ctx):
+    """`inspect.BoundArguments.arguments` keeps a VAR_POSITIONAL parameter as ONE entry (the tuple of the extra
+    positionals).  Rebuilding the positional argument list from the mapping's `.values()` therefore hands `*extra` to
+    the decorated function as a single tuple: `body(df, 1, 2)` receives `extra == ((1, 2),)` under
+    `check_input(schema, "df")` but `(1, 2)` under `check_input(schema)` / `check_input(schema, 0)`.  The positional
+    list is rebuilt with `BoundArguments.args` (which expands it) or by replacing the designated slot only."""
+    from ..util import Expander
+    m = ctx.ix.module("pandera/decorators.py")
+    for f in m.all_functions:
+        ex = None
+        for c in calls_in(f.node):
+            if not (callee_last(c) == "values" and isinstance(c.func, ast.Attribute) and not c.args):
+                continue
+            ex = ex or Expander(f.node)
+            recv = c.func.value
+            src = [recv] + [d for d in ex.closure(recv)]
+            from_bound = any(isinstance(x, ast.Attribute) and x.attr == "arguments" and isinstance(x.value, ast.Call)
+                             and callee_last(x.value) in ("bind", "bind_partial") for d in src for x in ast.walk(d)) or \
+                any(isinstance(x, ast.Attribute) and x.attr == "arguments" for d in src for x in ast.walk(d)
+                    if any(isinstance(y, ast.Call) and callee_last(y) in ("bind", "bind_partial") for e in ex.closure(x) for y in ast.walk(e)))
+            if not from_bound:
+                continue
+            ctx.touched(f)
+            ctx.ob("R13", f, f"{f.short}: positional arguments are not rebuilt from `{txt(recv)}.values()`", False,
+                   f"`{txt(c)}` flattens the bound-arguments mapping into the positional list: a *args parameter is one entry of that mapping, so the decorated "
+                   "function receives its extra positionals as a single tuple (check_input(schema, 'df') on `def body(df, *extra)`: body(df, 1, 2) sees extra == ((1, 2),))",
+                   f.loc(c))
+    binds = sum(1 for f in m.all_functions for c in calls_in(f.node) if callee_last(c) in ("bind", "bind_partial"))
+    ctx.ob("R13", m.all_functions[0], "decorators: every use of a bound-arguments mapping inspected", binds >= 2, f"{binds} bind / bind_partial calls inspected")
+    if binds < 2:
+        raise AnalysisError(f"decorators.py: signature binding sites found: {binds}")
+
+
 def run(ctx):
     r9_positional_writeback(ctx)
     r10_accessor_marks_instance_only(ctx)
     r11_unwrap_only_optional(ctx)
     r12_pydantic_validate_returns_validated(ctx)
+    r13_positionals_not_rebuilt_from_arguments_mapping(ctx)
     from ..defassign import check_modules
     check_modules(ctx, "R8", ('pandera/decorators.py',), "escapes the decorated call instead of the SchemaError(s)")
     ix = ctx.ix
@@ -400,9 +435,20 @@ def run(ctx):
             else:
                 # e.g. pos_args[...] = validate(...); args = list(pos_args.values())
                 after = cfg.reachable(cfg.node_of(st).id, skip_labels=("exc", "fin-exc"))
+                # the mapping may be a view of another local (`pos_args = bound.arguments`): a store into it is
+                # visible through its owner, so a conversion that reads the owner (`list(bound.args)`) counts too
+                owners = {tgt}
+                for n in cfg.nodes:
+                    a = n.ast
+                    if n.kind == "stmt" and isinstance(a, ast.Assign) and any(isinstance(t, ast.Name) and t.id == tgt for t in a.targets):
+                        v = a.value
+                        while isinstance(v, ast.Attribute):
+                            v = v.value
+                        if isinstance(v, ast.Name) and isinstance(a.value, (ast.Name, ast.Attribute)):
+                            owners.add(v.id)
                 conv = [n for n in cfg.nodes if n.kind == "stmt" and isinstance(n.ast, ast.Assign)
                         and any(isinstance(t, ast.Name) and t.id == "args" for t in n.ast.targets)
-                        and tgt in {x.id for x in ast.walk(n.ast.value) if isinstance(x, ast.Name)}]
+                        and owners & {x.id for x in ast.walk(n.ast.value) if isinstance(x, ast.Name)}]
                 through = {n.id for n in conv}
                 p2 = cfg.must_pass(cfg.node_of(st).id, {wnode.id}, through, skip_labels=("exc", "fin-exc"))
                 if conv and p2 is None:
